@@ -28,8 +28,8 @@ SECOND = [
 SCHEDULES = {"fifo": [(1970, "fifo")], "hifo": [(1970, "hifo")], "lifo": [(1970, "lifo")], "fifo->hifo@2021": [(1970, "fifo"), (2021, "hifo")]}
 
 
-def specs_for(hist: History, prefix: str, row_order: str = "reverse") -> Optional[List[Dict[str, Any]]]:
-    specs = H.materialize(hist, row_order=row_order, uid=True)
+def specs_for(hist: History, prefix: str, row_order: str = "reverse", scale: Any = 1, price_scale: Any = 1) -> Optional[List[Dict[str, Any]]]:
+    specs = H.materialize(hist, row_order=row_order, uid=True, scale=scale, price_scale=price_scale)
     if specs is None:
         return None
     for s in specs:
@@ -106,12 +106,13 @@ def histories(depth: int, steps: Sequence[str] = STEPS) -> Iterator[History]:
 
 
 def make_case(h1: History, second_index: Optional[int], schedule_name: str, window: Tuple[Optional[date], Optional[date]], country: str = "us", lang: str = "en",
-              reports: Sequence[str] = ("rp2_full_report",), row_order: str = "reverse", row_order2: Optional[str] = None) -> Optional[Dict[str, Any]]:
-    s1 = specs_for(h1, "a", row_order)
+              reports: Sequence[str] = ("rp2_full_report",), row_order: str = "reverse", row_order2: Optional[str] = None, scale: Any = 1,
+              price_scale: Any = 1) -> Optional[Dict[str, Any]]:
+    s1 = specs_for(h1, "a", row_order, scale, price_scale)
     if s1 is None:
         return None
     assets = {"B1": s1}
-    label = H.hist_str(h1)
+    label = H.hist_str(h1) + (f" [amounts x {scale}, prices x {price_scale}]" if (scale != 1 or price_scale != 1) else "")
     if second_index is not None:
         # by default the second asset's rows run the other way, so that a LATE row of one asset shares its number with an EARLY row of the other
         s2 = specs_for(SECOND[second_index], "b", row_order2 or ("chrono" if row_order == "reverse" else "reverse"))
@@ -123,7 +124,7 @@ def make_case(h1: History, second_index: Optional[int], schedule_name: str, wind
         sheets[a], assets[a] = to_sheet(assets[a], a)
     return {
         "label": label, "assets": assets, "sheets": sheets, "schedule": SCHEDULES[schedule_name], "schedule_name": schedule_name, "from": window[0], "to": window[1],
-        "country": country, "lang": lang, "reports": list(reports), "allow_negative": True,
+        "country": country, "lang": lang, "reports": list(reports), "allow_negative": True, "scale": str(scale), "price_scale": str(price_scale),
     }
 
 
